@@ -787,6 +787,12 @@ def _group_func_wrap(
         values = values[mask]
         group_key = group_key[mask]
         mask = None
+    else:
+        # pandas inputs are about to lose their index: compare them while we can
+        is_bool_mask = mask is not None and pd.api.types.is_bool_dtype(mask)
+        check_data_inputs_aligned()(lambda group_key, values, mask: None)(
+            group_key, values, mask if is_bool_mask else None
+        )
 
     group_key = _val_to_numpy(group_key)
     values = _val_to_numpy(values, as_list=True)
